@@ -66,6 +66,21 @@ K17 = [{"file": "k6_hilbert.rs", "harness": "k6_ij_to_quaternary_equiv", "kind":
              "k in 0..3 and flips in {YES, NO}"}
     for n in (1, 2, 3, 4, 5) for o in ("uv", "vu", "uw", "wu", "vw", "wv")]
 
+# crate-root name -> module it must be re-exported from (src/lib.rs); the contracts are on the core functions
+PUBLIC_API = {
+    "cell_to_boundary": "core::cell", "cell_to_lonlat": "core::cell", "lonlat_to_cell": "core::cell",
+    "hex_to_u64": "core::hex", "u64_to_hex": "core::hex",
+    "cell_area": "core::cell_info", "get_num_cells": "core::cell_info",
+    "cell_to_children": "core::serialization", "cell_to_parent": "core::serialization",
+    "get_res0_cells": "core::serialization", "get_resolution": "core::serialization",
+    "compact": "core::compact", "uncompact": "core::compact",
+}
+
+
+def _pub(*names):
+    return {n: PUBLIC_API[n] for n in names}
+
+
 STD_ASSUME = [
     "64-bit target: `global size_of usize == 8`",
     "get_origins(): OnceLock returns the value of generate_origins() (std contract); its table contract is "
@@ -75,6 +90,7 @@ STD_ASSUME = [
 
 PROPS = {
     "C05": {
+        "public_api": _pub("get_resolution", "hex_to_u64", "u64_to_hex", "cell_to_parent", "cell_to_children"),
         "units": ["codec"],
         "rlimit": 30,
         "kani": [K1],
@@ -114,6 +130,7 @@ PROPS = {
         "technique": "Verus contracts on extracted real functions + bit_vector lemmas; Kani closed-term harness for the face table",
     },
     "C07": {
+        "public_api": _pub("cell_to_parent", "cell_to_children", "get_res0_cells", "get_resolution"),
         "units": ["tree"],
         "rlimit": 30,
         "level": "proof",
@@ -137,6 +154,7 @@ PROPS = {
         "technique": "Verus contracts + loop invariants on extracted real functions; inductive lemmas over sequence specs",
     },
     "C08": {
+        "public_api": _pub("compact", "uncompact"),
         "units": ["compact"],
         "rlimit": 30,
         "level": "proof",
@@ -161,6 +179,7 @@ PROPS = {
         "technique": "Verus contract + loop invariants (abstract covered set, antichain) on the extracted real compact()",
     },
     "C09": {
+        "public_api": _pub("uncompact", "cell_to_parent", "get_resolution"),
         "units": ["compact"],
         "rlimit": 30,
         "level": "proof",
@@ -180,6 +199,7 @@ PROPS = {
         "technique": "Verus contract + loop invariants on the extracted real uncompact; lemmas over the C07 children spec",
     },
     "C14": {
+        "public_api": dict(PUBLIC_API),
         "units": ["compact", "glue", "hilbert", "origin", "shape"],
         "kani": [k for k in K17 if k["harness"] == "k14_ij_to_quaternary_total"],
         "bounded_ops": [
@@ -220,6 +240,7 @@ PROPS = {
         "technique": "Verus default safety obligations + rejects/value postconditions on extracted real functions, no preconditions on public API",
     },
     "C11": {
+        "public_api": _pub("cell_to_boundary"),
         "units": ["glue", "shape"],
         "rlimit": 30,
         "level": "proof",
@@ -258,6 +279,7 @@ PROPS = {
                      "functions of tiling.rs and geometry/pentagon.rs (unit shape), float arithmetic as stubs",
     },
     "C10": {
+        "public_api": _pub("compact"),
         "units": ["compact"],
         "rlimit": 30,
         "level": "proof",
@@ -284,6 +306,7 @@ PROPS = {
         "technique": "Verus loop invariants (interval order, failed-test prefix) on the extracted real compact() + tiling lemmas",
     },
     "C13": {
+        "public_api": dict(PUBLIC_API),
         "units": ["memo"],
         "state_inventory": {
             "pattern": r"(?<!')\bstatic\s+mut\b|thread_local!|OnceLock|LazyLock|lazy_static!|\bCell<|RefCell<|Mutex<|RwLock<|Atomic[A-Z]\w*|\bunsafe\b|UnsafeCell",
@@ -409,6 +432,7 @@ PROPS = {
                      "appended to the real origin.rs",
     },
     "C04": {
+        "public_api": _pub("cell_area", "get_num_cells"),
         "units": ["tree"],
         "rlimit": 30,
         "kani": [K4],
@@ -440,6 +464,7 @@ PROPS = {
         "technique": "Verus contract on get_num_cells + Kani closed-term harness on cell_area",
     },
     "C06": {
+        "public_api": _pub("lonlat_to_cell", "cell_to_lonlat", "cell_to_boundary", "get_resolution"),
         "units": ["codec"],
         "reference_identity": {
             "ref": "contracts/reference/src_v0.6.2_full/src",
@@ -492,11 +517,12 @@ PROPS = {
         "technique": "Verus layout contract + Kani closed-term equalities against a frozen reference; bounded Kani for the curve walk",
     },
     "C20": {
+        "public_api": _pub("cell_to_parent", "cell_to_children", "get_resolution"),
         "units": ["tree"],
         "rlimit": 30,
         "level": "proof",
         "assumptions": STD_ASSUME,
-        "search_ops": ["order", "order_children", "is_first_child", "get_stride"],
+        "search_ops": ["order", "order_children", "is_first_child", "get_stride", "cell_to_children", "cell_to_parent"],
         "level_text": "Unbounded proof (Verus/Z3): lemmas over the layout specification that the real serialize is proved to "
                       "implement - among cells of resolution >= 1 the subtree of a cell is exactly one open ID interval "
                       "(both directions), descendants of a precede descendants of b for a<b of equal resolution, ancestors at "
